@@ -42,7 +42,7 @@ KINDS = {
     'addUser': ('server', 'AddUser'), 'userStatus': ('server', 'GetUserStatus'), 'userStats': ('server', 'GetUserStats'),
     'peerInfo': ('peer', 'PeerUserInfoReply'), 'peerSearch': ('peer', 'PeerSearchReply'),
 }
-PRE_HOLD = ('privilegedUsers', 'checkPrivileges', 'admin', 'kicked', 'toggleInvites')
+PRE_HOLD = ('privilegedUsers', 'checkPrivileges', 'admin', 'kicked', 'toggleInvites', 'addPrivileged', 'addPrivileged')
 
 USER_FIELDS = ['status', 'privileged', 'country', 'avg_speed', 'uploads', 'shared_file_count', 'shared_folder_count',
                'slots_free', 'has_slots_free', 'upload_slots', 'queue_length', 'upload_permissions', 'description',
